@@ -21,6 +21,7 @@ func Gen(run *vlib.Run, seed uint64, tier string) {
 	genGpos4(run, r.Fork("gpos4"), tier)
 	genFeatureLists(run, r.Fork("featurelist"), tier)
 	genScriptLists(run, r.Fork("scriptlist"), tier)
+	genAllTags(run, tier)
 }
 
 func pairsOf(x vlib.Sx) ([]pair, error) {
@@ -201,6 +202,28 @@ func RunCase(line string) (impl, fail, sig string, err error) {
 		}
 		impl, fail, _ = subEnc(d)
 		return impl, fail, "c08-subtable-" + d.kind, nil
+	case "sl-all":
+		if len(items) != 3 {
+			return "", "", "", errors.New("sl-all: want 2 arguments")
+		}
+		sb, err := vlib.AsBytes(items[1])
+		if err != nil {
+			return "", "", "", err
+		}
+		ll, err := vlib.AsList(items[2])
+		if err != nil {
+			return "", "", "", err
+		}
+		var langs []string
+		for _, x := range ll {
+			b, err := vlib.AsBytes(x)
+			if err != nil {
+				return "", "", "", err
+			}
+			langs = append(langs, string(b))
+		}
+		impl, fail = slAllCase(string(sb), langs)
+		return impl, fail, "c08-scriptlist-tag-lost", nil
 	case "sl-enc":
 		if len(items) != 2 {
 			return "", "", "", errors.New("sl-enc: want 1 argument")
